@@ -71,6 +71,23 @@ def run(ctx):
                 cases.append({"set": s, "desc": "data-crc-preserving:%s@%d|archive intact" % (n, off), "fs": fs,
                               "vline": L.line_verify("p2", "mem", s.index, 1, fs),
                               "rline": L.line_repair("p2", "mem", s.index, rng.random() < 0.3, 1, fs)})
+    # ... and damage that changes a protected file's LENGTH while every slice stays findable in place: garbage appended,
+    # a zero byte appended inside the last slice's padding, trailing zero bytes lost
+    for s in (ps, big):
+        if s.created is None:
+            continue
+        for n in s.files:
+            d0 = s.created[s.paths[n]]
+            alts = [("data-append-garbage", d0 + b"\x07garbage")]
+            if len(d0) % s.slice:
+                alts.append(("data-zero-appended", d0 + b"\0"))
+            if d0.endswith(b"\0") and d0.rstrip(b"\0"):
+                alts.append(("data-trailing-zeros-lost", d0.rstrip(b"\0")))
+            for kind_, nd in alts:
+                fs = dict(s.created); fs[s.paths[n]] = nd
+                cases.append({"set": s, "desc": "%s:%s|archive intact" % (kind_, n), "fs": fs,
+                              "vline": L.line_verify("p2", "mem", s.index, 1, fs),
+                              "rline": L.line_repair("p2", "mem", s.index, rng.random() < 0.3, 1, fs)})
     import os
     aenv = dict(os.environ, VH_ALLOC="1")
     vi = ctx.run_lines(vh, [c["vline"] for c in cases], vmem_kb=4 << 20, timeout=3000, env=aenv)
